@@ -80,6 +80,7 @@ class Collector:
 
 
 MAX_RESTARTS = 12
+SIM_BUDGET_S = float(os.environ.get('VERIF_SIM_BUDGET_S', '1500'))
 
 
 def run_check(modname: str, tier: str, seed: int, replay_path: str | None = None) -> int:
@@ -183,6 +184,8 @@ def run_check(modname: str, tier: str, seed: int, replay_path: str | None = None
                 return (not run.ok and run.errors and any('verflow' in e for e in run.errors)
                         and not any('Assert' in e or 'violated' in e for e in run.errors))
 
+            t_shards = time.time()
+
             def reader(k):
                 # exact 32-bit arithmetic: an overflow ends a simulation process (it is never silent); the scenarios it emitted before are
                 # valid, and the shard goes on with a fresh seed until its share of the budget is used (at most MAX_RESTARTS times)
@@ -190,6 +193,8 @@ def run_check(modname: str, tier: str, seed: int, replay_path: str | None = None
                     got = 0
                     for attempt in range(MAX_RESTARTS + 1):
                         sp = dict(spec, workers=1, seed=(spec.get('seed') or 0) + 7919 * k + 104729 * attempt, max_cases=per - got, heap='1g')
+                        sp.setdefault('timeout', SIM_BUDGET_S)        # a random walk is a budget, not a goal: it ends after this many seconds at the latest
+                        sp['timeout'] = max(30.0, sp['timeout'] - (time.time() - t_shards))
                         run = TLCRun(**sp)
                         with runs_lock:
                             runs.append((run, sp))
@@ -202,7 +207,7 @@ def run_check(modname: str, tier: str, seed: int, replay_path: str | None = None
                         if b:
                             q.put(b)
                         got += run.emitted
-                        if got >= per or not (is_overflow(run) or getattr(run, 'stalled', False)):
+                        if got >= per or run.timed_out or not (is_overflow(run) or getattr(run, 'stalled', False)):
                             break
                 except Exception as ex:     # noqa
                     q.put(ex)
@@ -230,7 +235,10 @@ def run_check(modname: str, tier: str, seed: int, replay_path: str | None = None
                     run.ok = True
                     run.cut = True
                 finish(run, sp)
-            if spec.get('max_cases') and emitted_total < spec['max_cases'] // 4:
+            timed_out = sum(1 for run, _ in runs if run.timed_out)
+            if timed_out:
+                col.skipped['simulation_shard_ended_by_time_budget'] += timed_out
+            if spec.get('max_cases') and emitted_total < (1 if timed_out else spec['max_cases'] // 4):
                 raise MachineryError(f'simulation {spec["module"]}/{spec["cfg"]} produced only {emitted_total} of {spec["max_cases"]} scenarios '
                                      f'({col.skipped["simulation_process_stopped_out_of_arithmetic_range"]} processes stopped by arithmetic overflow)')
         drain(0)
